@@ -182,3 +182,9 @@ func zzProxy(cfg *config.Config, ev event.Manager) *Proxy {
 	}
 	return p
 }
+
+func zzCanceledContext() (context.Context, context.CancelFunc) {
+	ctx, cancel := context.WithCancel(context.Background())
+	cancel()
+	return ctx, cancel
+}
